@@ -11,7 +11,8 @@
 // Composition obligations (c_expand_enc_keys, c_enc_block, c_dec_block, p_enc_par) replace `transform` and `sub_bytes` by
 // the tagged transcript oracle lemmas.rs `tro` on the real side and the corresponding reference functions by the same
 // oracle on the reference side (linear in the number of calls).
-// OPEN: `transform` itself is only covered at ONE byte position of ONE table (c_transform_pos3, bounded).  Also tried:
+// OPEN: `transform` itself is only covered on blocks with at most one non-zero byte (c_tu_*: every position, every value, both
+// tables, concretely; c_transform_pos3 - one position, symbolic value - now runs out of memory).  Also tried:
 // `transform(b, t)` for a fully symbolic block against a table reference that points into a plain nondeterministic
 // `[u8; 65536]` local (no `Align16` struct object, so that CBMC's array theory could be used): out of memory after 200 s
 // (the reinterpretation as `[[u128; 256]; 16]` is lowered to a 4096-element array expression per read); the same with the
@@ -66,38 +67,96 @@ macro_rules! transform_at { ($name:ident, $table:ident, $i:expr) => {
         assert!(r == spec_transform_table(word(&b), &$table));
     }
 }; }
-// @ob name=c_transform_pos3 tier=thorough cfg=soft props=C07,C20 kind=bounded bound="block = unit_3(v), v symbolic" fn=kuznyechik::big_soft::backends::transform timeout=3600
+// NOT REGISTERED (registered by the previous round as c_transform_enc_3; re-run 2026-10-04 08:40 with RLIMIT_AS 32 GB, machine load ~14: CBMC out of memory -> undecided; renamed because `--harness m_enc_3` is a substring match and pulled this harness into the quick group): ob name=c_transform_pos3 tier=thorough cfg=soft props=C07,C20 kind=bounded bound="block = unit_3(v), v symbolic" fn=kuznyechik::big_soft::backends::transform timeout=3600
 transform_at!(c_transform_pos3, ENC_TABLE, 3);
 
 // ... and concretely for EVERY byte position, every byte value and both real tables, the other fifteen bytes zero (2 x 4096
-// blocks, kind=exhaustive over these): transform(unit_i(v), T) = XOR_j T[j][unit_i(v)_j], checked in the equivalent form
+// blocks, kind=exhaustive over these; one harness per table and position, about 210 s each - a whole table in one harness
+// timed out at 1500 s): transform(unit_i(v), T) = XOR_j T[j][unit_i(v)_j], checked in the equivalent form
 // transform(0) = XOR_j T[j][0] and transform(unit_i(v)) ^ transform(0) = T[i][v] ^ T[i][0].  This pins the reinterpretation of
 // the byte table as [[u128; 256]; 16] (offsets, endianness) at every entry of both tables; that the sixteen positions of
 // an arbitrary block are treated independently is the loop `res ^= table[i][block[i]]` itself (not machine-checked).
-macro_rules! transform_units { ($name:ident, $table:ident) => {
+macro_rules! transform_units { ($name:ident, $table:ident, $i:expr) => {
     #[kani::proof]
     #[kani::unwind(257)]
     fn $name() {
+        let i: usize = $i;
         let t0 = transform(0, &$table);
-        assert!(t0 == spec_transform_table(0, &$table));
-        let mut i = 0;
-        while i < 16 {
-            let w0 = word(&entry(&$table, i, 0));
-            let mut v = 0;
-            while v < 256 {
-                let mut b = [0u8; 16];
-                b[i] = v as u8;
-                assert!(transform(word(&b), &$table) ^ t0 == word(&entry(&$table, i, v as u8)) ^ w0);
-                v += 1;
-            }
-            i += 1;
+        if i == 0 { assert!(t0 == spec_transform_table(0, &$table)); }
+        let w0 = word(&entry(&$table, i, 0));
+        let mut v = 0;
+        while v < 256 {
+            let mut b = [0u8; 16];
+            b[i] = v as u8;
+            assert!(transform(word(&b), &$table) ^ t0 == word(&entry(&$table, i, v as u8)) ^ w0);
+            v += 1;
         }
     }
 }; }
-// EXPERIMENT ob name=c_transform_units_enc cfg=soft
-transform_units!(c_transform_units_enc, ENC_TABLE);
-// EXPERIMENT ob name=c_transform_units_dec cfg=soft
-transform_units!(c_transform_units_dec, DEC_TABLE);
+// @ob name=c_tu_enc_00 cfg=soft props=C07,C20 kind=exhaustive bound="blocks unit_0(v), v = 0..255 (concrete), table ENC_TABLE" fn=kuznyechik::big_soft::backends::transform timeout=900
+transform_units!(c_tu_enc_00, ENC_TABLE, 0);
+// @ob name=c_tu_enc_01 cfg=soft props=C07,C20 kind=exhaustive bound="blocks unit_1(v), v = 0..255 (concrete), table ENC_TABLE" fn=kuznyechik::big_soft::backends::transform timeout=900
+transform_units!(c_tu_enc_01, ENC_TABLE, 1);
+// @ob name=c_tu_enc_02 cfg=soft props=C07,C20 kind=exhaustive bound="blocks unit_2(v), v = 0..255 (concrete), table ENC_TABLE" fn=kuznyechik::big_soft::backends::transform timeout=900
+transform_units!(c_tu_enc_02, ENC_TABLE, 2);
+// @ob name=c_tu_enc_03 cfg=soft props=C07,C20 kind=exhaustive bound="blocks unit_3(v), v = 0..255 (concrete), table ENC_TABLE" fn=kuznyechik::big_soft::backends::transform timeout=900
+transform_units!(c_tu_enc_03, ENC_TABLE, 3);
+// @ob name=c_tu_enc_04 cfg=soft props=C07,C20 kind=exhaustive bound="blocks unit_4(v), v = 0..255 (concrete), table ENC_TABLE" fn=kuznyechik::big_soft::backends::transform timeout=900
+transform_units!(c_tu_enc_04, ENC_TABLE, 4);
+// @ob name=c_tu_enc_05 cfg=soft props=C07,C20 kind=exhaustive bound="blocks unit_5(v), v = 0..255 (concrete), table ENC_TABLE" fn=kuznyechik::big_soft::backends::transform timeout=900
+transform_units!(c_tu_enc_05, ENC_TABLE, 5);
+// @ob name=c_tu_enc_06 cfg=soft props=C07,C20 kind=exhaustive bound="blocks unit_6(v), v = 0..255 (concrete), table ENC_TABLE" fn=kuznyechik::big_soft::backends::transform timeout=900
+transform_units!(c_tu_enc_06, ENC_TABLE, 6);
+// @ob name=c_tu_enc_07 cfg=soft props=C07,C20 kind=exhaustive bound="blocks unit_7(v), v = 0..255 (concrete), table ENC_TABLE" fn=kuznyechik::big_soft::backends::transform timeout=900
+transform_units!(c_tu_enc_07, ENC_TABLE, 7);
+// @ob name=c_tu_enc_08 cfg=soft props=C07,C20 kind=exhaustive bound="blocks unit_8(v), v = 0..255 (concrete), table ENC_TABLE" fn=kuznyechik::big_soft::backends::transform timeout=900
+transform_units!(c_tu_enc_08, ENC_TABLE, 8);
+// @ob name=c_tu_enc_09 cfg=soft props=C07,C20 kind=exhaustive bound="blocks unit_9(v), v = 0..255 (concrete), table ENC_TABLE" fn=kuznyechik::big_soft::backends::transform timeout=900
+transform_units!(c_tu_enc_09, ENC_TABLE, 9);
+// @ob name=c_tu_enc_10 cfg=soft props=C07,C20 kind=exhaustive bound="blocks unit_10(v), v = 0..255 (concrete), table ENC_TABLE" fn=kuznyechik::big_soft::backends::transform timeout=900
+transform_units!(c_tu_enc_10, ENC_TABLE, 10);
+// @ob name=c_tu_enc_11 cfg=soft props=C07,C20 kind=exhaustive bound="blocks unit_11(v), v = 0..255 (concrete), table ENC_TABLE" fn=kuznyechik::big_soft::backends::transform timeout=900
+transform_units!(c_tu_enc_11, ENC_TABLE, 11);
+// @ob name=c_tu_enc_12 cfg=soft props=C07,C20 kind=exhaustive bound="blocks unit_12(v), v = 0..255 (concrete), table ENC_TABLE" fn=kuznyechik::big_soft::backends::transform timeout=900
+transform_units!(c_tu_enc_12, ENC_TABLE, 12);
+// @ob name=c_tu_enc_13 cfg=soft props=C07,C20 kind=exhaustive bound="blocks unit_13(v), v = 0..255 (concrete), table ENC_TABLE" fn=kuznyechik::big_soft::backends::transform timeout=900
+transform_units!(c_tu_enc_13, ENC_TABLE, 13);
+// @ob name=c_tu_enc_14 cfg=soft props=C07,C20 kind=exhaustive bound="blocks unit_14(v), v = 0..255 (concrete), table ENC_TABLE" fn=kuznyechik::big_soft::backends::transform timeout=900
+transform_units!(c_tu_enc_14, ENC_TABLE, 14);
+// @ob name=c_tu_enc_15 cfg=soft props=C07,C20 kind=exhaustive bound="blocks unit_15(v), v = 0..255 (concrete), table ENC_TABLE" fn=kuznyechik::big_soft::backends::transform timeout=900
+transform_units!(c_tu_enc_15, ENC_TABLE, 15);
+// @ob name=c_tu_dec_00 cfg=soft props=C07,C20 kind=exhaustive bound="blocks unit_0(v), v = 0..255 (concrete), table DEC_TABLE" fn=kuznyechik::big_soft::backends::transform timeout=900
+transform_units!(c_tu_dec_00, DEC_TABLE, 0);
+// @ob name=c_tu_dec_01 cfg=soft props=C07,C20 kind=exhaustive bound="blocks unit_1(v), v = 0..255 (concrete), table DEC_TABLE" fn=kuznyechik::big_soft::backends::transform timeout=900
+transform_units!(c_tu_dec_01, DEC_TABLE, 1);
+// @ob name=c_tu_dec_02 cfg=soft props=C07,C20 kind=exhaustive bound="blocks unit_2(v), v = 0..255 (concrete), table DEC_TABLE" fn=kuznyechik::big_soft::backends::transform timeout=900
+transform_units!(c_tu_dec_02, DEC_TABLE, 2);
+// @ob name=c_tu_dec_03 cfg=soft props=C07,C20 kind=exhaustive bound="blocks unit_3(v), v = 0..255 (concrete), table DEC_TABLE" fn=kuznyechik::big_soft::backends::transform timeout=900
+transform_units!(c_tu_dec_03, DEC_TABLE, 3);
+// @ob name=c_tu_dec_04 cfg=soft props=C07,C20 kind=exhaustive bound="blocks unit_4(v), v = 0..255 (concrete), table DEC_TABLE" fn=kuznyechik::big_soft::backends::transform timeout=900
+transform_units!(c_tu_dec_04, DEC_TABLE, 4);
+// @ob name=c_tu_dec_05 cfg=soft props=C07,C20 kind=exhaustive bound="blocks unit_5(v), v = 0..255 (concrete), table DEC_TABLE" fn=kuznyechik::big_soft::backends::transform timeout=900
+transform_units!(c_tu_dec_05, DEC_TABLE, 5);
+// @ob name=c_tu_dec_06 cfg=soft props=C07,C20 kind=exhaustive bound="blocks unit_6(v), v = 0..255 (concrete), table DEC_TABLE" fn=kuznyechik::big_soft::backends::transform timeout=900
+transform_units!(c_tu_dec_06, DEC_TABLE, 6);
+// @ob name=c_tu_dec_07 cfg=soft props=C07,C20 kind=exhaustive bound="blocks unit_7(v), v = 0..255 (concrete), table DEC_TABLE" fn=kuznyechik::big_soft::backends::transform timeout=900
+transform_units!(c_tu_dec_07, DEC_TABLE, 7);
+// @ob name=c_tu_dec_08 cfg=soft props=C07,C20 kind=exhaustive bound="blocks unit_8(v), v = 0..255 (concrete), table DEC_TABLE" fn=kuznyechik::big_soft::backends::transform timeout=900
+transform_units!(c_tu_dec_08, DEC_TABLE, 8);
+// @ob name=c_tu_dec_09 cfg=soft props=C07,C20 kind=exhaustive bound="blocks unit_9(v), v = 0..255 (concrete), table DEC_TABLE" fn=kuznyechik::big_soft::backends::transform timeout=900
+transform_units!(c_tu_dec_09, DEC_TABLE, 9);
+// @ob name=c_tu_dec_10 cfg=soft props=C07,C20 kind=exhaustive bound="blocks unit_10(v), v = 0..255 (concrete), table DEC_TABLE" fn=kuznyechik::big_soft::backends::transform timeout=900
+transform_units!(c_tu_dec_10, DEC_TABLE, 10);
+// @ob name=c_tu_dec_11 cfg=soft props=C07,C20 kind=exhaustive bound="blocks unit_11(v), v = 0..255 (concrete), table DEC_TABLE" fn=kuznyechik::big_soft::backends::transform timeout=900
+transform_units!(c_tu_dec_11, DEC_TABLE, 11);
+// @ob name=c_tu_dec_12 cfg=soft props=C07,C20 kind=exhaustive bound="blocks unit_12(v), v = 0..255 (concrete), table DEC_TABLE" fn=kuznyechik::big_soft::backends::transform timeout=900
+transform_units!(c_tu_dec_12, DEC_TABLE, 12);
+// @ob name=c_tu_dec_13 cfg=soft props=C07,C20 kind=exhaustive bound="blocks unit_13(v), v = 0..255 (concrete), table DEC_TABLE" fn=kuznyechik::big_soft::backends::transform timeout=900
+transform_units!(c_tu_dec_13, DEC_TABLE, 13);
+// @ob name=c_tu_dec_14 cfg=soft props=C07,C20 kind=exhaustive bound="blocks unit_14(v), v = 0..255 (concrete), table DEC_TABLE" fn=kuznyechik::big_soft::backends::transform timeout=900
+transform_units!(c_tu_dec_14, DEC_TABLE, 14);
+// @ob name=c_tu_dec_15 cfg=soft props=C07,C20 kind=exhaustive bound="blocks unit_15(v), v = 0..255 (concrete), table DEC_TABLE" fn=kuznyechik::big_soft::backends::transform timeout=900
+transform_units!(c_tu_dec_15, DEC_TABLE, 15);
 
 // @ob name=c_sub_bytes cfg=soft props=C07,C20 fn=kuznyechik::big_soft::backends::sub_bytes timeout=300
 #[kani::proof]
@@ -148,7 +207,7 @@ pub fn tr_sub_bytes(block: u128, sbox: &[u8; 256]) -> u128 {
 }
 
 // the 32 constants are read from KEYGEN by the real code and from the checked table CREF by the reference; 32 oracle calls
-// @ob name=c_expand_enc_keys cfg=soft props=C07,C20 fn=kuznyechik::big_soft::backends::expand_enc_keys uses=c_transform_pos3,c_enc_table_lo,c_enc_table_hi,c_ls_table,l_l_decomp,c_keygen,c_cref_lo,c_cref_hi timeout=600
+// @ob name=c_expand_enc_keys cfg=soft props=C07,C20 fn=kuznyechik::big_soft::backends::expand_enc_keys uses=c_tu_enc_*,c_enc_table_lo,c_enc_table_hi,c_ls_table,l_l_decomp,c_keygen,c_cref_lo,c_cref_hi timeout=600 note="assumes the contract spec_transform of transform; for this backend transform is machine-checked only on blocks with at most one non-zero byte (c_tu_*), the independence of the sixteen byte positions is by inspection of its loop"
 #[kani::proof]
 #[kani::stub(transform, tr_transform)]
 #[kani::stub(bcref::kuznyechik::lsx, tro::lsx)]
@@ -169,7 +228,7 @@ fn c_expand_enc_keys() {
 }
 
 // for every value of the ten encryption keys: uses S^-1(S(x)) = x
-// @ob name=c_inv_enc_keys cfg=soft props=C07,C20 fn=kuznyechik::big_soft::backends::inv_enc_keys uses=c_transform,c_dec_table_lo,c_dec_table_hi,c_slinv_table,l_linv_decomp,c_sub_bytes timeout=900
+// @ob name=c_inv_enc_keys cfg=soft props=C07,C20 fn=kuznyechik::big_soft::backends::inv_enc_keys uses=c_tu_dec_*,c_dec_table_lo,c_dec_table_hi,c_slinv_table,l_linv_decomp,c_sub_bytes timeout=900 note="assumes the contract spec_transform of transform; for this backend transform is machine-checked only on blocks with at most one non-zero byte (c_tu_*), the independence of the sixteen byte positions is by inspection of its loop"
 #[kani::proof]
 #[kani::stub(transform, spec_transform)]
 #[kani::stub(bcref::kuznyechik::l, ruf::l)]
@@ -201,7 +260,7 @@ pub fn dec_block(rk: &RoundKeys, b: [u8; 16]) -> [u8; 16] {
 }
 
 // for every value of the ten round keys and every block
-// @ob name=c_enc_block cfg=soft props=C07,C20 fn=kuznyechik::big_soft::backends::EncBackend::encrypt_block uses=c_transform_pos3,c_enc_table_lo,c_enc_table_hi,c_ls_table,l_l_decomp timeout=600
+// @ob name=c_enc_block cfg=soft props=C07,C20 fn=kuznyechik::big_soft::backends::EncBackend::encrypt_block uses=c_tu_enc_*,c_enc_table_lo,c_enc_table_hi,c_ls_table,l_l_decomp timeout=600 note="assumes the contract spec_transform of transform; for this backend transform is machine-checked only on blocks with at most one non-zero byte (c_tu_*), the independence of the sixteen byte positions is by inspection of its loop"
 #[kani::proof]
 #[kani::stub(transform, tr_transform)]
 #[kani::stub(bcref::kuznyechik::lsx, tro::lsx)]
@@ -219,7 +278,7 @@ fn c_enc_block() {
 
 // for every value of the ten decryption words (with dk = spec_inv_keys(K) this is the standard's D under K:
 // lemmas.l_dec_dk_is_standard).  The first stage uses S^-1(S(x)) = x (lemmas.l_s_inverse), see `tro::sd_first`.
-// @ob name=c_dec_block cfg=soft props=C07,C20 fn=kuznyechik::big_soft::backends::DecBackend::decrypt_block uses=c_transform_pos3,c_dec_table_lo,c_dec_table_hi,c_slinv_table,l_linv_decomp,c_sub_bytes,l_s_inverse timeout=600
+// @ob name=c_dec_block cfg=soft props=C07,C20 fn=kuznyechik::big_soft::backends::DecBackend::decrypt_block uses=c_tu_dec_*,c_dec_table_lo,c_dec_table_hi,c_slinv_table,l_linv_decomp,c_sub_bytes,l_s_inverse timeout=600 note="assumes the contract spec_transform of transform; for this backend transform is machine-checked only on blocks with at most one non-zero byte (c_tu_*), the independence of the sixteen byte positions is by inspection of its loop"
 #[kani::proof]
 #[kani::stub(transform, tr_transform)]
 #[kani::stub(sub_bytes, tr_sub_bytes)]
@@ -244,7 +303,7 @@ fn c_dec_block() {
 // transform (transcript oracle: the three single-block calls are recorded, the parallel function, which interleaves the
 // lanes, must ask exactly the same questions: parallel call p = 3 * round + lane).  The keys are not written.
 pub type Par = ParBlocks<EncBackend<'static>>;
-// @ob name=p_enc_par cfg=soft props=C04,C20 fn=kuznyechik::big_soft::backends::EncBackend::encrypt_par_blocks,kuznyechik::big_soft::backends::EncBackend::encrypt_block uses=c_transform_pos3 timeout=600
+// @ob name=p_enc_par cfg=soft props=C04,C20 fn=kuznyechik::big_soft::backends::EncBackend::encrypt_par_blocks,kuznyechik::big_soft::backends::EncBackend::encrypt_block timeout=600
 #[kani::proof]
 #[kani::stub(transform, tr_transform)]
 #[kani::unwind(65)]
